@@ -31,6 +31,7 @@ use tokio::net::UdpSocket;
 use tokio::sync::mpsc;
 use tokio::sync::mpsc::Receiver;
 use tokio::sync::mpsc::Sender;
+use tokio::sync::mpsc::error::TrySendError;
 use tokio::task::JoinHandle;
 use tokio::time;
 use tokio_util::bytes::BytesMut;
@@ -142,15 +143,20 @@ async fn startup_udp<const N: usize>(config: &ServerConfig<SslConfig>, user_mana
                                         hasher.finish()
                                     };
                                     // a failure of one association must not stop the service for the others
+                                    // (handing a datagram over never waits for its association: a busy one loses the datagram)
                                     if let Some(assoc) = net_map.get_mut(&key) {
-                                        if let Err(e) = assoc.try_send((content, peer_addr, session)).await {
-                                            error!("[udp] association closed, dropping it; error={e}");
-                                            net_map.remove(&key);
+                                        match assoc.try_send((content, peer_addr, session)) {
+                                            Ok(()) => {}
+                                            Err(TrySendError::Full(_)) => warn!("[udp] association busy, datagram dropped; client={client_addr}"),
+                                            Err(e) => {
+                                                error!("[udp] association closed, dropping it; error={e}");
+                                                net_map.remove(&key);
+                                            }
                                         }
                                     } else {
                                         match UdpAssociateContext::create(key, has_session_ids, client_addr, tx.clone()).await {
                                             Ok(assoc) => {
-                                                if let Err(e) = assoc.try_send((content, peer_addr, session)).await {
+                                                if let Err(e) = assoc.try_send((content, peer_addr, session)) {
                                                     error!("[udp] association closed; error={e}");
                                                 } else {
                                                     net_map.insert(key, assoc);
@@ -185,8 +191,10 @@ struct UdpAssociate<const N: usize> {
 }
 
 impl<const N: usize> UdpAssociate<N> {
-    async fn try_send(&self, msg: (BytesMut, Address, Session<N>)) -> Result<(), mpsc::error::SendError<(BytesMut, Address, Session<N>)>> {
-        self.sender.send(msg).await
+    /// Never waits: the loop that hands datagrams over is also the one that takes the associations' answers, and
+    /// waiting here for a full association that is itself waiting there stops the relay for everybody, for good
+    fn try_send(&self, msg: (BytesMut, Address, Session<N>)) -> Result<(), TrySendError<(BytesMut, Address, Session<N>)>> {
+        self.sender.try_send(msg)
     }
 }
 
